@@ -173,6 +173,26 @@ fn mutate_blocks_proof(chain: &Chain, v1: &packed::SendBlocksProofV1, a: &Attack
         "v1-wrong-extension" if n > 0 => exts[k] = Pack::pack(&Some(Bytes::from(vec![1u8, 2, 3]).pack())),
         _ => {}
     }
+    // structurally consistent variants: the MMR proof is regenerated for exactly the headers that are returned, so that
+    // the request-matching and missing-hash logic is reached instead of everything dying at the proof check
+    if a.sub % 4 < 2 && matches!(kind, "extra-header" | "drop-header" | "claim-found-as-missing" | "replace-header" | "claim-missing-as-found") {
+        let last_n: u64 = v1.last_header().header().raw().number().unpack();
+        let mut triples: Vec<(u64, packed::Header, Byte32, packed::BytesOpt)> = headers
+            .iter()
+            .cloned()
+            .zip(uncles.iter().cloned())
+            .zip(exts.iter().cloned())
+            .map(|((h, u), e)| (Unpack::<u64>::unpack(&h.raw().number()), h, u, e))
+            .filter(|(n, _, _, _)| *n < last_n)
+            .collect();
+        triples.sort_by_key(|t| t.0);
+        triples.dedup_by_key(|t| t.0);
+        let numbers: Vec<u64> = triples.iter().map(|t| t.0).collect();
+        proof = chain.proof_for(last_n, &numbers).into_iter().collect();
+        headers = triples.iter().map(|t| t.1.clone()).collect();
+        uncles = triples.iter().map(|t| t.2.clone()).collect();
+        exts = triples.iter().map(|t| t.3.clone()).collect();
+    }
     let v1 = packed::SendBlocksProofV1::new_builder()
         .last_header(v1.last_header())
         .proof(packed::HeaderDigestVec::new_builder().set(proof).build())
@@ -371,7 +391,7 @@ impl Property for C02 {
 
     fn cases(tier: Tier) -> u32 {
         match tier {
-            Tier::Quick => 1500,
+            Tier::Quick => 4000,
             Tier::Thorough => 40_000,
         }
     }
@@ -387,11 +407,13 @@ impl Property for C02 {
             Tier::Quick => 90u16,
             Tier::Thorough => 400u16,
         };
-        let attack = (0u8..4, any::<u16>(), 0u8..12, any::<u8>(), any::<u64>(), prop_oneof![6 => Just(0u8), 2 => Just(1u8), 1 => Just(2u8)]).prop_map(|(target, pick, kind, sub, val, from)| Attack { target, pick, kind, sub, val, from });
-        (chain_params(maxlen), net_params(), prop::collection::vec(reg_spec(), 1..3), prop::collection::vec(step_strategy(true), 0..25), prop::collection::vec(attack, 1..5))
+        let attack = (prop_oneof![3 => Just(0u8), 5 => Just(1u8), 2 => Just(2u8), 1 => Just(3u8)], any::<u16>(), 0u8..12, any::<u8>(), any::<u64>(), prop_oneof![6 => Just(0u8), 2 => Just(1u8), 1 => Just(2u8)]).prop_map(|(target, pick, kind, sub, val, from)| Attack { target, pick, kind, sub, val, from });
+        (chain_params(maxlen), net_params(), prop::collection::vec(reg_spec(), 1..3), prop::collection::vec(step_strategy(true), 0..25), prop::collection::vec(attack, 2..9))
             .prop_map(|(mut chain, mut net, mut initial, before, attacks)| {
                 chain.density = chain.density.max(60);
                 net.max_outbound = net.max_outbound.max(2);
+                net.filter_batch = net.filter_batch.max(6);
+                chain.density = chain.density.max(80);
                 for r in initial.iter_mut() {
                     r.start_kind = 0;
                 }
@@ -410,6 +432,7 @@ impl Property for C02 {
             crate::verif_hooks::set_rng_seed(None);
             r
         };
+        sim.w.record_deliveries = true;
         sim.set_scripts(0, &case.initial);
         sim.connect_quorum();
         // a second honest proven peer so that "another peer" exists
@@ -425,6 +448,7 @@ impl Property for C02 {
             }
         }
         let regs: Vec<Reg> = sim.regs.values().cloned().collect();
+        let initial_tip = tip;
         let mut nt: Vec<(String, bool, String, u8)> = vec![];
         for a in &case.attacks {
             // make sure something is in flight: a few ticks
@@ -444,6 +468,30 @@ impl Property for C02 {
                 }
                 None
             };
+            // honest progress until a request of the targeted kind is in flight
+            if a.target % 4 == 2 {
+                sim.step(&Step::FetchTx(a.pick));
+                sim.w.tick(SupportProtocols::LightClient, 1);
+            }
+            if a.target % 4 != 3 {
+                for _ in 0..60 {
+                    let has = sim.w.shared.sent.lock().unwrap().iter().any(|m| want_proto_msg(m) == Some(a.target % 4));
+                    if has {
+                        break;
+                    }
+                    if sim.w.outbox_len() == 0 {
+                        sim.w.tick_all();
+                        sim.w.advance(50);
+                    } else {
+                        // answer the oldest request that is not of the targeted kind
+                        let pos = sim.w.shared.sent.lock().unwrap().iter().position(|m| want_proto_msg(m) != Some(a.target % 4)).unwrap_or(0);
+                        sim.step(&Step::Deliver(((pos as u64 * 65536) / (sim.w.outbox_len().max(1) as u64)).min(65535) as u16));
+                    }
+                    if ended_by_ban(&sim.w).is_some() {
+                        break;
+                    }
+                }
+            }
             let candidates: Vec<usize> = {
                 let q = sim.w.shared.sent.lock().unwrap();
                 q.iter().enumerate().filter(|(_, m)| want_proto_msg(m) == Some(a.target % 4)).map(|(i, _)| i).collect()
@@ -563,6 +611,35 @@ impl Property for C02 {
                 nt.push((kind_name.clone(), v0, if Some(sender) == asked_peer { "asked".into() } else { "other".into() }, a.from % 3));
             }
             let _ = changed;
+            // a matched block may be flagged as proved only if some delivered SendBlocksProof carried its header
+            // (or it is the proven tip itself, which needs no further proof)
+            {
+                let mut carried: BTreeSet<Byte32> = BTreeSet::new();
+                for (proto, _, d) in &sim.w.delivered {
+                    if *proto == SupportProtocols::LightClient.protocol_id() {
+                        // v1 answers carry extra fields: parse like the client does (compatible mode)
+                        if let Ok(packed::LightClientMessageUnionReader::SendBlocksProof(p)) = packed::LightClientMessageReader::from_compatible_slice(d).map(|m| m.to_enum()) {
+                            for h in p.headers().iter() {
+                                carried.insert(h.to_entity().calc_header_hash());
+                            }
+                        }
+                    }
+                }
+                for st in sim.w.c().peers.get_all_prove_states() {
+                    carried.insert(st.1.get_last_header().header().hash());
+                }
+                carried.insert(sim.w.storage().get_tip_header().calc_header_hash());
+                // a block that was the proven tip when its filter was processed is recorded as proved at once
+                for b in sim.w.chains[0].blocks.iter().filter(|b| b.number() >= initial_tip) {
+                    carried.insert(b.hash());
+                }
+                let mb = sim.w.c().peers.matched_blocks().read().unwrap();
+                for (h, (proved, _)) in mb.iter() {
+                    if *proved && !carried.contains(&h.pack()) {
+                        return finish(Err(Failure::new(format!("matched-block-flagged-as-proved-without-a-proof/after-{}", kind_name), format!("{:#x}", h))));
+                    }
+                }
+            }
             if let Err(f) = check_genuine(&sim.w, &sim.w.chains[0], &regs, &probe_headers, &probe_txs) {
                 return finish(Err(Failure::new(format!("{}/after-{}", f.signature, kind_name), f.message)));
             }
